@@ -97,7 +97,12 @@ type MapDataProvider[T any] struct {
 }
 
 func (m *MapDataProvider[T]) Get(key string) any {
-	return any(m.M[key])
+	v, ok := m.M[key]
+	if !ok {
+		// a missing key is an absent value whatever the element type of the map (the zero value of T would look present)
+		return nil
+	}
+	return any(v)
 }
 
 // returns value + key used
